@@ -40,7 +40,7 @@ PROPS = {
         'modules': ['OtterVerif.Props.C07', 'OtterVerif.Props.C06Conc'],
         'engines': [seq(['bound', 'mix', 'expiry', 'huge'], 400, 12000, lambda f: f['class'] == 'events'),
                     # which entries the size policy removes, replayed on the model after every call (incl. weights near 2^32)
-                    unit('policy', 60, 3000, chunk=5),
+                    {'kind': 'unit', 'name': 'policy', 'hcmd': 'unit-policy', 'dcmd': 'policy', 'quick': 60, 'thorough': 3000, 'chunk': 5},
                     {'kind': 'unit', 'name': 'concevents', 'hcmd': 'conc-events', 'dcmd': 'concevents', 'quick': 120, 'thorough': 6000, 'chunk': 10, 'args': [],
                      'accept': lambda f: 'C07' in f['msg'] or 'more than once' in f['msg']}],
     },
